@@ -44,7 +44,7 @@ Contract(o, enc, rest, B) ==
 
 Clauses(o) ==
     LET p == o.payload
-        enc == IF o.chain[1] \in {"wide", "utf16", "utf16be"} THEN o.chain[1] ELSE "none"
+        enc == IF o.chain[1] = "utf16le" THEN "wide" ELSE IF o.chain[1] \in {"wide", "utf16", "utf16be"} THEN o.chain[1] ELSE "none"
         rest == IF enc = "none" THEN o.chain ELSE Tail(o.chain)
     IN
     IF ~o.ret.ok /\ ~o.ret.sigma THEN <<C("NonSigmaException")>>
